@@ -50,6 +50,15 @@ def regs_from_map(memory_map, root=True):
     return regs
 
 
+def range_covers_width(ctx, regs, dw, cfg):
+    """every bit of a register must be reachable at the addresses the map reports: (end - start) * data_width >= width"""
+    bad = [(R["name"], R["start"], R["stop"], R["width"]) for R in regs if (R["stop"] - R["start"]) * dw < R["width"]]
+    ctx.results.append({"name": f"range_covers_width@{ctx.key}", "clause": "range_covers_width", "status": "discharged" if not bad else "failed",
+                        "time": 0.0, "replay": {"confirmed": True, "how": "native: memory map ranges vs. register widths",
+                                                "detail": f"(name, start, end, width) with too few addresses for a {dw}-bit bus: {bad}"},
+                        "cfg": cfg, "known_key": "range_covers_width", "solver": "native evaluation"})
+
+
 def elem_signals(regs):
     out = []
     for R in regs:
